@@ -68,7 +68,7 @@ def check_cfg(r, cfg, n, only=None):
         r.trans += 1
         r.evals += 1
         exp = O.seq_ok_c(c, s)
-        if st != 'ok' or bool(got) != exp or not isinstance(got, (bool,)) and type(got).__name__ not in ('bool_', 'bool'):
+        if st != 'ok' or bool(got) != exp:
             r.v(sig_of(cfg, s, 'whole-sequence-verdict'), 'cfg', dict(case0, strings=[s]), exp, got if st == 'ok' else repr(got))
             got = exp
         verdict[s] = bool(got)
